@@ -6,10 +6,11 @@
 -/
 import DecModel.Basic
 import DecGen.Code
+import DecGen.Code3
 
 namespace Dec
 namespace HkGen
-open Dec.Rs Dec.Gen.Code
+open Dec.Rs Dec.Gen.Code Dec.Gen.Code3
 
 def w (n : Nat) : UInt64 := UInt64.ofNat n
 def i32 (n : Nat) : Int32 := Int32.ofInt (UInt64.ofNat n).toInt64.toInt      -- `a[k] as i32`
@@ -114,6 +115,12 @@ def run (name : String) (mode : Mode) (flagsIn : Nat) (a : List Nat) : Res :=
   | "compare_gt_128", [a0, a1, b0, b1] => lift fl (unsigned_compare_gt_128 (u128 a0 a1) (u128 b0 b1)) fun r => [b2n r]
   | "compare_ge_128", [a0, a1, b0, b1] => lift fl (unsigned_compare_ge_128 (u128 a0 a1) (u128 b0 b1)) fun r => [b2n r]
   | "test_equal_128", [a0, a1, b0, b1] => lift fl (test_equal_128 (u128 a0 a1) (u128 b0 b1)) fun r => [b2n r]
+  -- the digit-group helpers of bid128_to_string (DecGen/Code3.lean; `C05GenMidi`), on an empty vector
+  | "split_midi_2", [x] => lift fl (l0_split_midi_2 (UInt32.ofNat x) []) fun v => v.map UInt32.toNat
+  | "split_midi_3", [x] => lift fl (l0_split_midi_3 (UInt32.ofNat x) []) fun v => v.map UInt32.toNat
+  | "split_midi_6", [x] => lift fl (l1_split_midi_6 (w x) []) fun v => v.map UInt32.toNat
+  | "split_midi_6_lead", [x] => lift fl (l1_split_midi_6_lead (w x) []) fun v => v.map UInt32.toNat
+  | "normalize_10to18", [h, l] => lift fl (l0_normalize_10to18 (w h) (w l)) fun (a, b) => [a.toNat, b.toNat]
   | _, _ => .unknown
 
 end HkGen
